@@ -157,8 +157,7 @@ def _git(cwd, *args):
 
 class GitSandbox:
     def __init__(self):
-        base = "/dev/shm" if os.path.isdir("/dev/shm") else None
-        self.root = tempfile.mkdtemp(prefix="verif-c15-", dir=base)
+        self.root = tempfile.mkdtemp(prefix="verif-c15-")
         self.repo = os.path.join(self.root, "default")
         os.makedirs(self.repo)
         env = dict(os.environ, GIT_CONFIG_GLOBAL="/dev/null", GIT_CONFIG_SYSTEM="/dev/null")
